@@ -89,11 +89,19 @@ Definition model_run (c : case) : run :=
 
 Definition entry := (Z * Z * Z * spec_float)%type.
 
+(* Compared: calls on the explorer and the four annealing-state events.  NOT compared (the property does not constrain
+   them, the harness does not record them): log lines and the relayed "Cooling" note. *)
+Definition is_compared (x : stamped) : bool :=
+  match fst x with
+  | LogError | LogInfo | EvCooling _ => false
+  | _ => true
+  end.
+
 Definition model_log (c : case) : list entry :=
   map (fun d : option nat * stamped =>
          let '(code, k) := event_code (fst (snd d)) in
          (match fst d with None => 0 | Some i => Z.of_nat (S i) end, code, k, Prim2SF (snd (snd d))))
-      (deliveries (Z.to_nat (c_m c)) (trace (model_run c))).
+      (deliveries (Z.to_nat (c_m c)) (filter is_compared (trace (model_run c)))).
 
 Definition expand (w code k : Z) (t : spec_float) : list entry :=
   if w <? 0 then map (fun i => (Z.of_nat (S i), code, k, t)) (seq 0 (Z.to_nat (- w))) else [(w, code, k, t)].
